@@ -15,8 +15,11 @@ ETREE = 'github.com/beevik/etree.'
 def tag_bytes(I, info, tag='bytes'):
     """A fresh opaque non-empty byte slice carrying `info` in the ghost state."""
     ctx = I.ctx
-    p = ctx.alloc((ctx.fresh_int(tag + '.b0', 'uint8'),), tag)
+    b0 = ctx.fresh_int(tag + '.b0', 'uint8')
+    p = ctx.alloc((b0,), tag)
     ctx.ghost.setdefault('bytes_tag', {})[p.cell] = info
+    # the placeholder byte itself identifies the content, so the tag survives copies (encryption round trips)
+    ctx.ghost.setdefault('bytes_tag_term', {})[str(b0)] = info
     return Slice(p, 0, 1, 1)
 
 
@@ -25,7 +28,12 @@ def bytes_info(I, sl):
     sl = ctx.force(sl)
     if not isinstance(sl, Slice) or sl.base is None:
         return None
-    return ctx.ghost.get('bytes_tag', {}).get(sl.base.cell)
+    info = ctx.ghost.get('bytes_tag', {}).get(sl.base.cell)
+    if info is None and sl.len == 1:
+        b0 = ctx.load(sl.base)[sl.off]
+        if is_sym(b0):
+            info = ctx.ghost.get('bytes_tag_term', {}).get(str(b0))
+    return info
 
 
 def string_info(I, s):
